@@ -16,7 +16,7 @@ def strip_scaling(md):
     m = copy.deepcopy(md)
     for c in m['comps']:
         for o in c['outs']:
-            for k in ('ref', 'ref0', 'res_ref'):
+            for k in ('ref', 'ref0', 'res_ref', 'via_solver_options'):
                 o.pop(k, None)
     return m
 
@@ -83,6 +83,19 @@ class C08(Property):
 
     def cases(self, rng, tier):
         n = 40 if tier == 'quick' else 1200
+        # family: sparse scaling - a single component of the model carries ref/ref0/res_ref, on some of
+        # its outputs only, given partly through set_output_solver_options (per-model flags such as
+        # "some output has an adder" must not depend on which output is looked at last)
+        for _ in range(10 if tier == 'quick' else 200):
+            yield {'gen_seed': rng.randrange(10 ** 9),
+                   'opts': {'safe_indices': True, 'scaling': True, 'array_scaling': True,
+                            'solver_options_api': True, 'implicit': False, 'cycles': False,
+                            'n_comps': (3, 5)},
+                   'cfg': {'mode': rng.choice(['fwd', 'rev']),
+                           'linear': rng.choice([None, 'runonce', 'direct']), 'nonlinear': None,
+                           'sub_linear': None, 'jac': None,
+                           'partials': rng.choice([None, 'dense'])},
+                   'sparse_scaling': rng.randrange(10 ** 6)}
         for _ in range(n):
             cyc = rng.random() < 0.4
             cfg = {'mode': rng.choice(['fwd', 'rev']),
@@ -96,6 +109,7 @@ class C08(Property):
                 cfg['jac'] = 'csc'
             yield {'gen_seed': rng.randrange(10 ** 9),
                    'opts': {'safe_indices': True, 'scaling': True, 'array_scaling': True,
+                            'solver_options_api': rng.random() < 0.5,
                             'implicit': rng.random() < 0.5,
                             'cycles': 'converging' if cyc else False},
                    'cfg': cfg}
@@ -103,6 +117,26 @@ class C08(Property):
     def _md(self, case):
         rng = random.Random(case['gen_seed'])
         md = gm.gen_md(rng, **case['opts'])
+        if 'sparse_scaling' in case:
+            r2 = random.Random(case['sparse_scaling'])
+            multi = [c for c in md['comps'] if c['kind'] == 'explicit' and len(c['outs']) > 1]
+            keep = r2.choice(multi or [c for c in md['comps'] if c['kind'] == 'explicit'])
+            for c in md['comps']:
+                for k, o in enumerate(c['outs']):
+                    last = (k == len(c['outs']) - 1)
+                    if c is not keep or (last and len(c['outs']) > 1 and r2.random() < 0.7):
+                        for key in ('ref', 'ref0', 'res_ref', 'via_solver_options'):
+                            o.pop(key, None)
+                        if c is keep and last and r2.random() < 0.6:
+                            # the last output: options given, but no adder (ref0 = 0)
+                            o['ref'] = rat(r2.choice([Fraction(-4), Fraction(2), Fraction(1, 2)]))
+                            o['ref0'] = rat(Fraction(0))
+                            o['res_ref'] = rat(r2.choice([Fraction(1), Fraction(2)]))
+                            o['via_solver_options'] = True
+                    elif c is keep and 'ref' not in o:
+                        o['ref0'] = rat(Fraction(r2.randint(1, 6), 2))
+                        o['ref'] = rat(unrat(o['ref0']) + r2.choice([Fraction(2), Fraction(-1), Fraction(7)]))
+                        o['res_ref'] = rat(r2.choice([Fraction(1), Fraction(4)]))
         voi = gm.gen_voi(rng, md, units=False, scaling=False)
         return md, voi
 
